@@ -17,7 +17,8 @@ const uint8_t SIGMA_B[] = { '[', ']', '{', '}', ',', ':', '"', '\\', '/', 'u', '
 const char* SIGMA_T[] = { "[", "]", "{", "}", ",", ":", "\"a\"", "\"b\"", "1", "-2.5e1", "true", "false", "null", " ", "\n", "0" };
 const char* PIECES[] = { "a", "\\\"", "\\\\", "\\/", "\\b", "\\n", "\\u0041", "\\u00e9", "\\u20AC", "\\uD83D\\uDE00", "\\uD83D", "\\uDE00",
                          "\\uD83D\\u0041", "\\u00G1", "\\u12", "\\u", "\\", "\\x", "\x01", "\x1f", "\xc3\xa9", "\xc3", "\xff", "\\u0000",
-                         "\"", "\\uDBFF\\uDFFF", "\\ud800\\udc00", "\xf0\x9f\x98\x80", "\xed\xa0\x80" };
+                         "\"", "\\uDBFF\\uDFFF", "\\ud800\\udc00", "\xf0\x9f\x98\x80", "\xed\xa0\x80",
+                         "\\u\x80\x80\x80\x80", "\\u00\xc3\xa9", "\\uD83D\\u\xff\xfe\x80\xbf", "\\u\xe9" "041", "\\u004\xb1" };
 const int NPIECES = sizeof PIECES / sizeof *PIECES;
 
 std::string nest_bytes(int family, long d) {
